@@ -639,16 +639,21 @@ def restore_closures(tree, modname, known, ref_locals=None):
     done = []
     for c in [n for n in tree.body if isinstance(n, ast.ClassDef)]:
         for g in [st for st in list(c.body) if isinstance(st, ast.FunctionDef) and
-                  any(isinstance(d, ast.Name) and d.id == 'staticmethod' for d in st.decorator_list)]:
+                  (any(isinstance(d, ast.Name) and d.id == 'staticmethod' for d in st.decorator_list)
+                   or (not st.decorator_list and st.args.args and st.args.args[0].arg == 'self'))]:
             if '%s:%s.%s' % (modname, c.name, g.name) in known:
                 continue
+            bound = not g.decorator_list
             users = []
             for m_ in c.body:
                 if not isinstance(m_, ast.FunctionDef) or m_ is g or not m_.args.args:
                     continue
                 recv = m_.args.args[0].arg
                 refs = [x for x in ast.walk(m_) if isinstance(x, ast.Attribute) and x.attr == g.name and
-                        ast.unparse(x.value) in (recv, c.name, 'type(%s)' % recv, '%s.__class__' % recv)]
+                        ast.unparse(x.value) in ((recv,) if bound else
+                                                 (recv, c.name, 'type(%s)' % recv, '%s.__class__' % recv))]
+                if bound and recv != 'self':
+                    refs = []
                 if refs:
                     users.append((m_, refs))
             if len(users) != 1:
@@ -681,6 +686,9 @@ def restore_closures(tree, modname, known, ref_locals=None):
             new = copy.deepcopy(g)
             new.name = fname
             new.decorator_list = []
+            if bound:
+                # a method used only as self.g inside m: the closure captures m's self
+                new.args.args = new.args.args[1:]
             pos = 1 if (m_.body and isinstance(m_.body[0], ast.Expr) and isinstance(m_.body[0].value, ast.Constant)) else 0
             m_.body.insert(pos, ast.copy_location(new, m_.body[pos] if pos < len(m_.body) else m_))
 
